@@ -322,8 +322,12 @@ def search(pid, failure, tier, seed):
                 why = PREDS[pid](c, o)
                 if why:
                     return dict(case=c, result=o, why=why, replay_kind=pid)
+    from . import scen
+    if pid in ('C11', 'C13', 'C14', 'C16', 'C17', 'C12', 'C07'):
+        hit = scen.search_special(run_cases, pid, rng, 240 if tier == 'quick' else 6000)
+        if hit:
+            return hit
     if pid in SCENARIO_PROPS:
-        from . import scen
         return scen.search_scenarios(run_cases, pid, rng, 1200 if tier == 'quick' else 20000)
     return None
 
@@ -357,7 +361,22 @@ def replay_file(path):
     if outs is None:
         print('replay crate unavailable:', build.error)
         return 2
-    if ce['replay_kind'].startswith('scenario:'):
+    if ce['replay_kind'] == 'pair_key':
+        from . import scen
+        other = dict(ce['case'], a=ce['case']['b'], b=ce['case']['a'])
+        print('replaying the reported key case and its mirror; the full search (check) re-derives the colliding partner')
+        outs2 = run_cases([ce['case'], other])
+        print(json.dumps(outs2))
+        h = scen.check_key_cases([ce['case'], other], outs2)
+        print('VIOLATION reproduced: ' + h['why'] if h else 'mirror keys agree on the current tree (collision partner not replayed)')
+        return 1 if h else 0
+    if ce['replay_kind'].startswith('special:'):
+        from . import scen
+        _, fn, pidk = ce['replay_kind'].split(':')
+        o = outs[0]
+        vs = [x for x in getattr(scen, fn)(ce['case'], o.get('out', {})) if x[0] == pidk] if o.get('ok') else []
+        why = vs[0][1] if vs else None
+    elif ce['replay_kind'].startswith('scenario:'):
         from . import scen
         pidk = ce['replay_kind'].split(':')[1]
         vs = [x for x in scen.check_scenario(ce['case'], outs[0].get('out', {})) if x[0] == pidk] if outs[0].get('ok') else []
@@ -374,3 +393,130 @@ def replay_file(path):
 
 
 GENS['C08'] = gen_bn_cases
+
+
+# ---------------------------------------------------------------- unit-level guards: route shape (C13), max spread (C10), slippage (C15)
+
+def viol_ops(case, res):
+    if case.get('kind') != 'assert_operations' or not res.get('ok'):
+        return None
+    outs = set()
+    for a, b in case['ops']:
+        lab = lambda s: s[2:]       # the contract keys assets by their displayed text (denom / address)
+        outs.discard(lab(a))
+        outs.add(lab(b))
+    want = (len(outs) == 1)
+    if res['out']['accepted'] != want:
+        return 'route %s leaves %d dangling output asset(s) but was %s' % (case['ops'], len(outs), 'accepted' if res['out']['accepted'] else 'rejected')
+    return None
+
+
+def gen_ops_cases(rng, budget):
+    labs = ['n:a', 'n:b', 't:c', 't:d', 'n:e']
+    out = []
+    for _ in range(budget):
+        n = rng.randrange(1, 5)
+        ops = []
+        if rng.random() < 0.5:
+            cur = rng.choice(labs)
+            for _h in range(n):
+                nxt = rng.choice([l for l in labs if l != cur])
+                ops.append([cur, nxt])
+                cur = nxt
+            if rng.random() < 0.4 and len(ops) >= 2:
+                ops.append([rng.choice(labs), ops[0][1]])
+            if rng.random() < 0.3:
+                rng.shuffle(ops)
+        else:
+            for _h in range(n):
+                a, b = rng.sample(labs, 2)
+                ops.append([a, b])
+        out.append(dict(kind='assert_operations', ops=ops))
+    return out
+
+
+def viol_spread(case, res):
+    if case.get('kind') != 'max_spread' or not res.get('ok'):
+        return None
+    od, rd = case['od'], case['rd']
+    o, rt, sp = int(case['offer']), int(case['ret']), int(case['spread'])
+    k = 10 ** abs(od - rd)
+    if od > rd:
+        rt, sp = rt * k, sp * k
+    elif od < rd:
+        o = o * k
+    r = res['out']['r']
+    s = case['max_spread']
+    p = case['belief_price']
+    if s is None:
+        return None if r == 'ok' else 'guard fired without max_spread'
+    s = int(s)
+    if p is not None:
+        p = int(p)
+        if p == 0:
+            return None
+        if r == 'ok' and o * D > p and s < D and not rt * D * p > (o * D - p) * (D - s - 1):
+            return 'accepted although return %d <= (offer/p - 1)*(1 - s - 1e-18) (offer %d, p %d, s %d, decimals %d/%d)' % (rt, o, p, s, od, rd)
+        if r == 'guard' and not rt * p < o * (D - s):
+            return 'rejected although return %d >= (offer/p)*(1-s) (offer %d, p %d, s %d, decimals %d/%d)' % (rt, o, p, s, od, rd)
+    else:
+        if rt + sp == 0:
+            return None
+        if r == 'ok' and not sp * D < (s + 1) * (rt + sp):
+            return 'accepted although spread/(return+spread) >= s + 1e-18 (return %d spread %d s %d, decimals %d/%d)' % (rt, sp, s, od, rd)
+        if r == 'guard' and not sp * D > s * (rt + sp):
+            return 'rejected although spread/(return+spread) <= s (return %d spread %d s %d)' % (rt, sp, s)
+    return None
+
+
+def gen_spread_cases(rng, budget):
+    out = []
+    for _ in range(budget):
+        od, rd = rng.choice([(6, 6), (8, 6), (6, 8), (18, 6), (6, 18), (0, 18), (18, 18), (9, 8)])
+        o = rng.randrange(1, 10 ** rng.choice([3, 6, 9, 12]))
+        rt = max(0, int(o * rng.choice([0.5, 0.9, 0.99, 1.0, 1.5, 150, 0.0066]) * 10 ** (rd - od)) + rng.randrange(-2, 3)) if rng.random() < 0.7 else rng.randrange(0, 10 ** 9)
+        sp = int(rt * rng.choice([0, 0.001, 0.0099, 0.01, 0.0101, 0.1, 1.0])) + rng.randrange(0, 2)
+        s = rng.choice([0, 10 ** 16, 10 ** 16 + 1, 5 * 10 ** 16, 5 * 10 ** 17, D - 1, D])
+        bp = None
+        if rng.random() < 0.6:
+            bp = max(1, int(D * (o * 10 ** max(0, rd - od)) / max(1, rt * 10 ** max(0, od - rd)) * rng.choice([0.9, 0.95, 1.0, 1.01, 1.0526, 1.2]))) if rt > 0 else D
+        out.append(dict(kind='max_spread', belief_price=(str(bp) if bp else None), max_spread=str(s), offer=str(o), ret=str(rt), spread=str(sp), od=od, rd=rd))
+    return out
+
+
+def viol_slip(case, res):
+    if case.get('kind') != 'slippage' or not res.get('ok'):
+        return None
+    if case['t'] is None:
+        return None if res['out']['r'] == 'ok' else 'rejected without a tolerance'
+    t = int(case['t'])
+    d0, d1, r0, r1 = int(case['d0']), int(case['d1']), int(case['r0']), int(case['r1'])
+    r = res['out']['r']
+    if t > D:
+        return None if r != 'ok' else 'tolerance above 100% accepted'
+    ok = lambda a, b, x, y: a * (D - t) * y < (x * D + 2 * y) * b
+    safe = lambda a, b, x, y: a * (D - t) * y <= (x * D - y) * b
+    if r == 'ok' and not (ok(d0, d1, r0, r1) and ok(d1, d0, r1, r0)):
+        return 'provision accepted outside the tolerance: d=(%d,%d) r=(%d,%d) t=%d' % (d0, d1, r0, r1, t)
+    if r == 'guard' and safe(d0, d1, r0, r1) and safe(d1, d0, r1, r0):
+        return 'provision rejected although both ratios are within tolerance - 1e-18: d=(%d,%d) r=(%d,%d) t=%d' % (d0, d1, r0, r1, t)
+    return None
+
+
+def gen_slip_cases(rng, budget):
+    out = []
+    for _ in range(budget):
+        r0 = rng.randrange(1, 10 ** rng.choice([2, 3, 6, 12, 20]))
+        r1 = rng.randrange(1, 10 ** rng.choice([2, 3, 6, 12, 20]))
+        f = rng.choice([0.001, 0.01, 0.5, 1, 3])
+        d0 = max(1, int(r0 * f))
+        d1 = max(1, int(r1 * f * rng.choice([1, 1, 0.98, 0.99, 1.01, 1.02, 0.5, 2])))
+        if rng.random() < 0.2:
+            d0, d1 = rng.randrange(1, 200), rng.randrange(1, 200)
+        t = rng.choice([0, 10 ** 15, 10 ** 16, 2 * 10 ** 16, 5 * 10 ** 17, D, D + 1])
+        out.append(dict(kind='slippage', t=str(t), d0=str(d0), d1=str(d1), r0=str(r0), r1=str(r1)))
+    return out
+
+
+PREDS.update({'C13': viol_ops, 'C10': viol_spread, 'C15': viol_slip})
+GENS.update({'C13': gen_ops_cases, 'C10': gen_spread_cases, 'C15': gen_slip_cases})
